@@ -45,7 +45,9 @@ Head0(cls, tick, days, secs, us) ==
 LaneLetters == <<71, 82, 89, 66, 79>>     \* G R Y B O
 RECURSIVE NoteNameFrom(_, _)
 NoteNameFrom(lanes, j) == IF j > 5 THEN <<>> ELSE (IF (j - 1) \in lanes THEN <<LaneLetters[j]>> ELSE <<>>) \o NoteNameFrom(lanes, j + 1)
-NoteName(lanes) == IF lanes = {} THEN <<80>> ELSE NoteNameFrom(lanes, 1)
+\* (lanes arrives as a sequence of lane indices)
+NoteName(laneSeq) == LET lanes == { laneSeq[k] : k \in DOMAIN laneSeq }
+                     IN IF lanes = {} THEN <<80>> ELSE NoteNameFrom(lanes, 1)
 
 \* the sustain as Python prints it: an int, or a 5-tuple with None for inactive lanes
 RECURSIVE TupleBody(_, _)
